@@ -357,17 +357,30 @@ func c14Run(sc *C14Scenario) (v *nodeViolation, flags map[string]bool) {
 							}
 						}
 					}()
+					blocked := false
 					select {
 					case <-actDone:
 					case <-time.After(250 * time.Millisecond):
+						// the activity waits for something the block thread owns (or the machine is slow):
+						// the block thread goes first; what the connections are asked from here on cannot be
+						// ordered against the end of the block, so it is recorded without a verdict
+						blocked = true
 						flags["activity-blocked-on-block-thread"] = true
 						gate.release()
 						<-actDone
-						gate = &holdGate{Role: "block"} // released: fresh gate for later events
-						sn.store.SetGate(gate.hook)
-						gf.gate = gate.hook
+						<-done
+						sn.drain()
+						for _, u := range uns {
+							u.drain(sn)
+						}
+						for _, r := range collect() {
+							hasReq[r.tx] = true
+							lastReq[r.tx] = r.at
+							lastReqHi[r.tx] = r.atHi
+							delete(tracked[r.src], r.tx)
+						}
 					}
-					if !flags["activity-blocked-on-block-thread"] {
+					if !blocked {
 						// what the connections were asked while the block was in the middle of processing
 						sn.drain()
 						for _, u := range uns {
